@@ -136,7 +136,7 @@ bound: it does not end when the evaluation at the converged upper end stays unsa
 theorem chargeLoop_fuel (ops : Ops α B) (hnf : NoFuel ops) (env : Env α) (v : VehicleS α B)
     (ts : List (TS α)) (sorted : List (α × Nat))
     (hb : ∀ (cs : StationS α) (same : List Nat) (oldSoc desired : α) (power : List α) (sim : B),
-      bisect ops env.eps cs v.minChargingPower ts same oldSoc desired bisectFuel 0 cs.maxPower false
+      bisect ops env.eps cs v.minChargingPower ts same oldSoc desired bisectFuel 0 (cs.maxPower - pymin cs.currentPower 0) false
         power sim ≠ .error .fuel) :
     ∀ (fuel : Nat) (st : VSt α B), st.sortedIdx ≤ sorted.length →
       sorted.length + 1 ≤ st.sortedIdx + fuel →
